@@ -119,7 +119,7 @@ func init() {
 			want := []struct{ what, cond, why string }{
 				{"full-exit tolerance", "math.LegacyDec.LT(math.LegacyDec.Abs(math.LegacyDec.Sub($delegation.Shares, " + need + ")), types.Rounder)", "a request within the rounding epsilon of the whole position withdraws all of its shares"},
 				{"rejection threshold", "math.LegacyDec.LT($delegation.Shares, math.LegacyDec.TruncateDec(" + need + "))", "a request is rejected only when the position holds less than the whole-share part of what it needs (the reported balance is rounded up by the same epsilon, so the fractional excess must be tolerated)"},
-				{"cap at the position's shares", "math.LegacyDec.GT(" + need + ", $delegation.Shares)", "the shares removed never exceed what the position holds"},
+				{"cap at the position's shares", "math.LegacyDec.LT($delegation.Shares, " + need + ")", "the shares removed never exceed what the position holds"},
 			}
 			for _, w := range want {
 				found := false
